@@ -438,6 +438,7 @@ static RunResult run_history(const std::vector<int>& h, int align_mode, bool rep
     A.fail_at = -1;
     if (last) r.allocs_last = A.alloc_count - a0;
     bool is_fault = last && fail_k >= 0;
+    if (is_fault && !A.fault_fired) { r.member = false; break; }   // allocation k did not occur in this run (thread-local scratch of the library already warm): nothing was injected
     if (is_fault && !(threw && what == "std::bad_alloc")) {
       if (!threw) fail(c, "bad_alloc:swallowed", opname(o) + fmt(" completed although allocation %ld failed", fail_k));
       else if (!(e.may_throw || e.must_throw)) fail(c, "bad_alloc:replaced-by-other-exception", opname(o) + " threw " + what);
